@@ -5,7 +5,7 @@
    role each item plays for an operation.
    Part 2: the process-level state machine: Context objects on an
    allocation-only heap, the seven parser singletons' current context,
-   Junk.junkid, DTDChecker.texthandler.textcontent, the caches
+   Junk.junkid and XMLJunk's own copy, DTDChecker.texthandler.textcontent, the caches
    (ProjectConfig._cache, mozpath.re_cache, Matcher._cached_re) and the
    operations on them.  What the text parsers, checkers and serializers compute
    from their arguments are PARAMETERS (pure functions); what is modelled is
